@@ -255,7 +255,7 @@ struct Tool {
     p.nmol = 4 + (int)r.below(9);
     p.chain = 2 + (int)r.below(3);
     p.fmt = r.chance(0.3) ? 1 : 0;
-    p.vol_jitter = r.chance(0.5);
+    p.vol_jitter = r.chance(0.5) ? (r.chance(0.4) ? 2 : 1) : 0;
     { long strides[6] = {0, 0, 0, 5, 29, 173}; p.alloc_stride = strides[r.below(6)]; }
     if (r.chance(0.3)) { p.nmol = 4 + (int)r.below(5); p.sparse_mask = (long)(r.next() & 0xfff); if (r.chance(0.3)) p.sparse_mask = 0xaaa; }
     c05tool::tool_generate(p, r, tier);
@@ -448,8 +448,13 @@ std::string gen_trajectory(const Plan &p, double box, int) {
   r.seed(p.case_seed, 0x7a);
   std::ostringstream o;
   int n = p.nmol * p.chain;
+  double held = 1.0;
   for (int f = 0; f < p.F; f++) {
-    double L = box * (p.vol_jitter ? (1.0 + 0.05 * (r.unit() - 0.5)) : 1.0);
+    // vol_jitter 1: a different box in every frame; 2: piecewise constant (the box changes every second or third frame,
+    // so that consecutive frames often, but not always, have the same box)
+    double jitter = 1.0 + 0.05 * (r.unit() - 0.5);
+    if (f == 0 || p.vol_jitter != 2 || (f % (2 + (int)(p.case_seed % 2))) == 0) held = jitter;
+    double L = box * (p.vol_jitter ? held : 1.0);
     std::vector<double> x((size_t)n * 3);
     bool sparse = (p.sparse_mask >> f) & 1;
     if (p.lattice) {
